@@ -72,7 +72,9 @@ func (s *set[ElementType]) DeleteAll(other ReadableSet[ElementType]) (removedEle
 
 	removedElements = NewSet[ElementType]()
 	_ = other.ForEach(func(element ElementType) (err error) {
-		if s.Delete(element) {
+		// the read lock is already held: delete from the underlying map directly (taking the read lock again can
+		// deadlock with a concurrent Apply/Compute/Replace that waits for the write lock)
+		if s.OrderedMap.Delete(element) {
 			removedElements.Add(element)
 		}
 
